@@ -51,6 +51,8 @@ pub struct GenCfg {
     /// percentage of operations that are intrinsics / indirect branches (when allowed)
     pub intrinsic_pct: u64,
     pub branch_pct: u64,
+    /// percentage of indirect branches that target an address outside the function
+    pub unknown_target_pct: u64,
     /// the last block has no out-edges (a reachable block without successors is likely)
     pub ensure_exit: bool,
 }
@@ -76,6 +78,7 @@ impl GenCfg {
             min_blocks: 1,
             intrinsic_pct: 4,
             branch_pct: 4,
+            unknown_target_pct: 10,
             ensure_exit: false,
         }
     }
@@ -242,7 +245,7 @@ pub fn operation(rng: &mut Rng, cfg: &GenCfg, branch_targets: &[u64]) -> il::Ope
         return il::Operation::intrinsic(il::Intrinsic::new("intr", "intr", vec![], written, read, vec![0x0f, 0x05]));
     }
     if cfg.allow_branch && r >= 60 && r < 60 + cfg.branch_pct {
-        let t = if !branch_targets.is_empty() && rng.chance(9, 10) { *rng.pick(branch_targets) } else { 0xdead_0000 + rng.below(16) };
+        let t = if !branch_targets.is_empty() && rng.below(100) >= cfg.unknown_target_pct { *rng.pick(branch_targets) } else { 0xdead_0000 + rng.below(16) };
         return il::Operation::branch(il::expr_const(t, 64));
     }
     let dst = rng.pick(&cfg.scalars).clone();
